@@ -14,6 +14,7 @@ hence (with C05) equal solution sets.  The structure model is compared the same 
 region depths named by region.  Counterexamples are replayed through the real stages on
 both builds with CBC and compared by allele names / RefSeq notation.
 """
+import os
 import time
 import collections
 import z3
@@ -27,14 +28,18 @@ from vcommon import new_result, ob
 from aldy.gene import Mutation
 from aldy.profile import Profile
 from aldy.solutions import CNSolution, MajorSolution, SolvedAllele
+from aldy.common import AldyException
 
 PROPERTY = "C13"
 LEVEL = "model_checking"
 FUNCTIONS = ["aldy.major.estimate_major/solve_major_model", "aldy.minor.estimate_minor/"
              "solve_minor_model", "aldy.cn.solve_cn_model", "aldy.gene.Gene (both builds)",
              "aldy.sam.Sample._make_coverage", "aldy.gene.Gene.{get_functional,is_functional} "
-             "(effect inference)"]
-STUBS = ["as C02/C03/C04 (capturing backend, symbolic counts, identity filter)"]
+             "(effect inference)", "aldy.genotype.genotype (build resolution, incl. the "
+             "multi-gene recursion)"]
+STUBS = ["as C02/C03/C04 (capturing backend, symbolic counts, identity filter)",
+         "build: sam.detect_genome -> arbitrary (kind, build) of its type, chosen by the "
+         "solver; Gene() -> recorder"]
 OUTSIDE = ["reads aligned against each build by an aligner (I/O); catalogue equality itself is C09, "
            "coordinate maps C08", "shipped genes other than the listed ones"]
 ASSUMPTIONS = ["evidence is transported between builds through RefSeq notation: the count "
@@ -47,7 +52,9 @@ def BOUNDS(tier):
             "(+/-, variants on region boundaries with structures breaking there), toy "
             "(+/-); shipped: cyp2c19, cyp2d6 (restricted support) in thorough",
             "major: structures of 2-3 copies; minor: major solutions of 2 copies; cn: "
-            "max_cn 3-4; all support patterns"]
+            "max_cn 3-4; all support patterns",
+            "build: file kind in {sam, vcf, dump} x detected build in {none, hg19, hg38} x "
+            "named build in {none, hg19, hg38} x one / two genes (exhaustive)"]
 
 
 def configs(tier):
@@ -83,6 +90,10 @@ def configs(tier):
     # both builds for every catalogued variant
     for g in ("toy", "GA", "GB", "GD", "GE"):
         c.append({"kind": "notation", "gene": g})
+    # which build's coordinates genotype() loads: the one the caller names; the header
+    # detection (an environment stub returning an arbitrary value of its type) only fills in
+    # when none is named. Single gene and the multi-gene recursion.
+    c.append({"kind": "build"})
     if tier == "thorough":
         c.append({"kind": "major", "gene": "cyp2c19", "cn": ["1", "1"], "support": 4})
         c.append({"kind": "major", "gene": "cyp2d6", "cn": ["1", "1"], "support": 4})
@@ -92,6 +103,75 @@ def configs(tier):
 
 def run_config(cfg):
     return globals()["run_" + cfg["kind"]](cfg)
+
+
+class _Stop(BaseException):
+    pass
+
+
+BUILD_VALUES = [None, "hg19", "hg38"]
+BUILD_KINDS = ["sam", "vcf", "dump"]
+
+
+def build_case(kind, detected, given, multi):
+    """builds handed to Gene() by the real genotype() when the file is of `kind`, its header
+    says `detected` and the caller names `given`; multi = two genes (recursive call)."""
+    import aldy.genotype as G
+    import aldy.sam as sam_mod
+
+    seen = []
+
+    def fake_gene(db, genome=None, *a, **kw):
+        seen.append(genome)
+        raise _Stop()
+
+    saved = (sam_mod.detect_genome, G.Gene)
+    sam_mod.detect_genome = lambda p: (kind, detected)
+    G.Gene = fake_gene
+    try:
+        G.genotype("cyp2d6,cyp2c19" if multi else "cyp2d6", os.path.abspath(__file__),
+                   "illumina", None, solver="any", genome=given)
+    except _Stop:
+        pass
+    except AldyException as e:
+        seen.append(f"error: {e}")
+    finally:
+        sam_mod.detect_genome, G.Gene = saved
+    want = given if given is not None else (detected or "hg19")
+    probs = []
+    if not seen or seen[0] != want:
+        probs.append(f"{kind} file, header says {detected}, caller names {given}"
+                     f"{', two genes' if multi else ''}: gene database loaded for "
+                     f"{seen[:1]}, expected {want}")
+    return probs
+
+
+def run_build(cfg):
+    res = new_result(cfg)
+    eng = Engine(name="c13b")
+    ki, di, gi, mi = z3.Int("kind"), z3.Int("detected"), z3.Int("given"), z3.Int("multi")
+
+    def run():
+        k = BUILD_KINDS[eng.choose(ki, range(3))]
+        d = BUILD_VALUES[eng.choose(di, range(3))]
+        g = BUILD_VALUES[eng.choose(gi, range(3))]
+        m = bool(eng.choose(mi, range(2)))
+        return (k, d, g, m), build_case(k, d, g, m)
+
+    n = 0
+    for dec, pc, ((k, d, g, m), probs) in eng.explore(run, [], max_paths=1000):
+        n += 1
+        ob(res, "build: genotype() loads the gene for the build the caller names (header "
+                "detection only when none is named, hg19 when nothing is known)",
+           "holds" if not probs else "sat")
+        if probs:
+            res["violations"].append({
+                "what": probs[0], "key": f"build:{k}:{d}:{g}",
+                "replay": {"kind": "build", "file": k, "detected": d, "given": g,
+                           "multi": m}})
+    res["violations"] = res["violations"][:4]
+    res["stats"] = {**dict(eng.stats), "paths": n}
+    return res
 
 
 def run_notation(cfg):
@@ -652,6 +732,9 @@ def replay(o):
     import aldy.minor as minor
     import aldy.cn as cn
 
+    if o["kind"] == "build":
+        probs = build_case(o["file"], o["detected"], o["given"], o["multi"])
+        return bool(probs), "; ".join(probs)
     if o["kind"] == "cn":
         return True, "structure models differ (symbolic)"
     if o["kind"] == "notation":
